@@ -115,9 +115,8 @@ def handleAttr (args : List Val) : Option Val := do
                      space := ← space? sp }
     let v ← pyval? v
     let m := outcome a c v
-    -- self-test of `model_meets_specAccept` (whose hypotheses exclude the open finding K2 and
-    -- the unmodelled inputs)
-    let ms := specAccept a c v m || knownExc a c v || m == .unmodelled
+    -- self-test of `model_meets_specAccept` (whose hypothesis excludes the unmodelled inputs)
+    let ms := specAccept a c v m || m == .unmodelled
     let is : Val ← match impl with
       | .atom "none" => pure (.int (-1))
       | .atom s => do pure (b2v (specAccept a c v (← outcome? s)))
@@ -179,8 +178,8 @@ def handleBox (args : List Val) : Option Val := do
     let b ← box? b
     let v ← pyval? v
     let m := boxContains b v
-    -- self-test of `model_meets_specBox` (whose hypothesis excludes the known finding K2)
-    let ms := specBox b v m || k2Exc b v
+    -- self-test of `model_meets_specBox`
+    let ms := specBox b v m
     let is : Val ← match impl with
       | .atom "none" => pure (.int (-1))
       | .atom s => do pure (b2v (specBox b v (← boxOut? s)))
